@@ -252,10 +252,15 @@ _mtbl_sorter_write_chunk(struct entry_batch *b)
 	entry_vec_destroy(&b->entries);
 	free(b);
 
-	if (res != mtbl_res_success)
+	if (res != mtbl_res_success) {
+		close(fd);
 		return (NULL);
+	}
 
-	return (mtbl_reader_init_fd(fd, NULL));
+	/* The reader maps the file; the descriptor is not needed beyond this point. */
+	struct mtbl_reader *r = mtbl_reader_init_fd(fd, NULL);
+	close(fd);
+	return (r);
 }
 
 mtbl_res
